@@ -149,6 +149,9 @@ class C18(CheckBase):
                 cmd = [rng.choice(['type', 'dump', 'list']), dfswork.fsp(v, f, 0, 'full')]
                 aimed = True
         variants = []
+        if not aimed and src in ('flux', 'genflux') and rng.chance(0.6):
+            # flux containers are decoded while --file is processed: only a --verbose in front of it can reach the decoders
+            variants.append({'k': 'diag', 'opts': ['--verbose'], 'pos': 'pre'})
         if aimed:
             # options take effect in command-line order: only a --verbose in front of --file reaches the track decoder
             variants.append({'k': 'diag', 'opts': ['--verbose'], 'pos': 'pre'})
